@@ -39,6 +39,17 @@ def p_downstream():
     }
 
 
+def p_downstream_late():
+    """P: a downstream that is opened only after the connection has recovered (next to streams that survived the outage)."""
+    ch = lambda k: {"a": "sendChunk", "obj": "P", "up": "X", "upF": "info", "upAl": 0, "seq": k, "groups": [{"f": "id", "id": "A", "al": 0, "pts": [[k, 6]]}]}
+    rd = {"a": "read", "g": "RP", "obj": "P", "ctxMs": 1500, "wait": True}
+    return {
+        "open": [], "before": [],
+        "after": [{"a": "sleep", "ms": 200}, {"a": "openDown", "g": "OP", "obj": "P", "qos": "reliable", "srcs": ["n1"], "ackFlushMs": 20, "ctxMs": 2000, "wait": True},
+                  ch(1), dict(rd), ch(2), dict(rd), {"a": "sleep", "ms": 45}, {"a": "closeDown", "g": "CP", "obj": "P", "ctxMs": 3000, "wait": True}],
+    }
+
+
 def q_variants():
     """Q scripts: (open steps, steps before the cut, rules, steps after the recovery)."""
     wq = lambda tok: [{"a": "write", "g": "WQ", "obj": "Q", "id": "A", "pts": [[tok, 8]], "ctxMs": 2000, "wait": True},
@@ -68,6 +79,9 @@ def q_variants():
                              [{"a": "rule", "rule": {"on": "UpstreamCloseRequest", "do": "hold", "arg": 3, "nth": 1, "obj": "Q"}}],
                              [{"a": "closeUp", "g": "CQ", "obj": "Q", "ctxMs": 4000},
                               {"a": "release", "gate": "hold3"}, {"a": "join", "obj": "CQ"}])
+    # Q is opened the moment the connection is back, while P (a survivor) is resuming
+    v["down-open-at-recovery"] = ([], [], [], [{"a": "openDown", "g": "OQ", "obj": "Q", "qos": "reliable", "srcs": ["n2"], "ackFlushMs": 20, "ctxMs": 2000, "wait": True}]
+                                  + v["down"][3])
     v["down-resume-refused"] = (v["down"][0], v["down"][1], [{"a": "rule", "rule": {"on": "DownstreamResumeRequest", "do": "code", "arg": NG, "nth": 1, "obj": "Q"}}], [{"a": "sleep", "ms": 100}])
     return v
 
@@ -100,12 +114,16 @@ def run():
     os.remove(os.path.join(SPEC, cfg))
     scs = []
     qs = q_variants()
-    for pname, p in (("up-reliable", p_upstream("reliable")), ("up-unreliable", p_upstream("unreliable")), ("down", p_downstream())):
+    for pname, p in (("up-reliable", p_upstream("reliable")), ("up-unreliable", p_upstream("unreliable")), ("down", p_downstream()), ("down-late", p_downstream_late())):
         for qname, q in qs.items():
             if qname == "none":
                 continue
+            if pname == "down-late" and qname not in ("down", "up-reliable"):
+                continue
             for cut in (True, False):
-                if quick and not cut and qname not in ("up-unreliable", "down", "up-same-ids-acked", "down-close-pending", "up-close-pending"):
+                if qname == "down-open-at-recovery" and not cut:
+                    continue
+                if quick and not cut and (pname == "down-late" or qname not in ("up-unreliable", "down", "up-same-ids-acked", "down-close-pending", "up-close-pending")):
                     continue
                 scs += pair(pname, p, qname, q, cut)
     trace = ctx.run_scenarios(scs, "c07", par=1 if False else 6)
